@@ -122,6 +122,22 @@ Fixpoint read_all_loop (fuel : nat) (next : src -> rm) (s : src) : list bytes * 
 Definition read_all (max : N) (s : src) : list bytes * final :=
   read_all_loop (S (length (s_data s))) (read_msg max) s.
 
+(* the buffers (make([]byte, numBytes) in read) that the calls of readDelimitedMessageRaw allocate,
+   in order: the 4 bytes of a prefix, then - only after the size check - the announced size *)
+Definition msg_bufs (max : N) (s : src) : list N :=
+  match read_n c09_prefix_len s with
+  | RnDone p _ => let size := be_decode p 0 in
+                  if max <? size then [c09_prefix_len] else [c09_prefix_len; size]
+  | _ => [c09_prefix_len]
+  end.
+Fixpoint all_bufs_loop (fuel : nat) (max : N) (s : src) : list N :=
+  match fuel with
+  | O => []
+  | S f => msg_bufs max s ++ match read_msg max s with Msg _ s' => all_bufs_loop f max s' | _ => [] end
+  end.
+Definition all_bufs (max : N) (s : src) : list N := all_bufs_loop (S (length (s_data s))) max s.
+Definition bufs_within (max : N) (s : src) : bool := forallb (fun b => b <=? N.max 4 max) (all_bufs max s).
+
 (* writeDelimitedMessageRaw: uint32(len(data)) big-endian, then the data *)
 Definition write_msg (m : bytes) : bytes := be32 (N.of_nat (length m)) ++ m.
 Definition write_all (ms : list bytes) : bytes := concat (map write_msg ms).
@@ -347,12 +363,15 @@ Definition sx_final (f : final) : sx :=
   end.
 
 Definition sx_all (r : list bytes * final) : sx := L [L (map B (fst r)); sx_final (snd r)].
+(* ... and whether every buffer handed to Read stayed within max(4, limit) *)
+Definition sx_read_all (mx : N) (s : src) : sx :=
+  let r := read_all mx s in L [L (map B (fst r)); sx_final (snd r); sx_bool (bufs_within mx s)].
 
 (* (max data sched eager tail) -> ((messages) final), through readDelimitedMessageRaw / ReadDelimitedMessage *)
 Definition run_c09_read (args : list sx) : sx :=
   or_bad (match args with
   | [mx; d; sch; eg; tl] =>
-    do mx <- un_N mx; do s <- un_src d sch eg tl; ret (sx_all (read_all mx s))
+    do mx <- un_N mx; do s <- un_src d sch eg tl; ret (sx_read_all mx s)
   | _ => None end).
 
 (* ((max data sched eager) ...) -> (results): peers that stall after the data *)
@@ -362,7 +381,7 @@ Definition run_c09_stalls (args : list sx) : sx :=
     do cs <- un_listof (fun c => match c with
                                  | L [mx; d; sch; eg] =>
                                    do mx <- un_N mx; do s <- un_src d sch eg (I 1%Z);
-                                   ret (sx_all (read_all mx s))
+                                   ret (sx_read_all mx s)
                                  | _ => None end) cs;
     ret (L cs)
   | _ => None end).
@@ -436,8 +455,9 @@ Definition run_c09_pipe (args : list sx) : sx :=
     do sch <- un_listof un_nat sch; do eg <- un_bool eg;
     let '(n, failed, k) := write_stream write_delimited ms (sink_of room) in
     let s := mk_src (k_out k) sch eg TEOF in
-    let r := if dir then read_all mx s else decode_all s in
-    ret (L [sx_nat n; sx_bool failed; L [L (map B (fst r)); sx_final_dec (snd r)]])
+    ret (L [sx_nat n; sx_bool failed;
+            if dir then sx_read_all mx s
+            else let r := decode_all s in L [L (map B (fst r)); sx_final_dec (snd r)]])
   | _ => None end).
 
 (* (values room-class) -> per Encode call: the compacted output and its last byte; then the whole run.
